@@ -115,7 +115,24 @@ class World:
                     "h": lambda: ufl.Circumradius(self.mesh),
                 }[o["kind"]]()
             else:
-                V = ufl.FunctionSpace(self.mesh, LagrangeElement(cell, 2, tuple(shape)))
+                el = LagrangeElement(cell, 2, tuple(shape))
+                if o.get("pullback"):
+                    # a Piola-mapped field: the pool holds its PHYSICAL value, gradient and Hessian
+                    import ufl.pullback as _pb
+                    from ufl.sobolevspace import L2, HCurl, HDiv, HDivDiv, HEin
+
+                    from .elements import FiniteElement
+
+                    fam, pull, sob = {
+                        "contravariant": ("RT", _pb.contravariant_piola, HDiv),
+                        "covariant": ("N1curl", _pb.covariant_piola, HCurl),
+                        "double_contravariant": ("HHJ", _pb.double_contravariant_piola, HDivDiv),
+                        "double_covariant": ("Regge", _pb.double_covariant_piola, HEin),
+                        "covariant_contravariant": ("GLS", _pb.covariant_contravariant_piola, HDiv),
+                        "l2": ("DPC", _pb.l2_piola, L2),
+                    }[o["pullback"]]
+                    el = FiniteElement(fam, cell, 2, tuple(shape), pull, sob)
+                V = ufl.FunctionSpace(self.mesh, el)
                 kind = o.get("kind", "coef")
                 obj = ufl.Coefficient(V) if kind == "coef" else ufl.Argument(V, 0 if kind == "arg0" else 1)
             byname[name] = obj
